@@ -263,6 +263,15 @@ func VerifProvide(key string, v any) {}
 var verifWG sync.WaitGroup
 var verifMu sync.Mutex
 
+// VerifGuarded names an object whose content is protected by its own lock (a struct embedding a
+// sync.Mutex/RWMutex) or is a sync.Map: in concurrency mode its content is shared between the threads
+// through one abstract state cell. No effect natively.
+func VerifGuarded(v any) {}
+
+// VerifShared marks a plain memory cell as shared between threads in concurrency mode (its ordinary
+// loads and stores become events). No effect natively.
+func VerifShared(p any) {}
+
 // VerifGo starts a harness thread.
 func VerifGo(name string, fn func()) {
 	verifWG.Add(1)
